@@ -49,6 +49,8 @@ type Opts struct {
 
 	// SpecCheck: also abstract the run into actions of Spec/Raft.lean (static membership, BaseIndex 0)
 	SpecCheck bool `json:"spec_check"`
+	// Fuzz > 0: single-node fuzzing with that many steps instead of a cluster run (fuzz.go)
+	Fuzz int `json:"fuzz,omitempty"`
 	// Script replaces the random scheduler (see scenario.go)
 	Script []string `json:"script,omitempty"`
 	// Converge > 0: after Steps random actions run a fault-free suffix of that many election timeouts (C15)
@@ -361,6 +363,13 @@ func (c *Cluster) appApply(n *Node, ents []*pb.Entry) {
 		if !n.Alive || n.RN == nil {
 			return
 		}
+		if c.O.Async && e.GetIndex() <= n.Applied {
+			// the append thread installed a snapshot covering this entry while the batch was waiting in the
+			// apply thread's queue: the state machine is already past it (the hand-out order itself is
+			// checked by the C08 monitor when the batch leaves the node)
+			c.Stats["apply_skipped_covered_by_snapshot"]++
+			continue
+		}
 		c.Mon.onApply(n, e)
 		n.Applied = e.GetIndex()
 		n.NextApply = e.GetIndex() + 1
@@ -390,6 +399,9 @@ func (c *Cluster) onConfApplied(n *Node, e *pb.Entry, cs *pb.ConfState) {
 	n.ConfHist = append(n.ConfHist, confAt{Index: e.GetIndex(), CS: proto.Clone(cs).(*pb.ConfState)})
 	c.Mon.onConfApplied(n, e, cs)
 	c.appSnapshotHousekeeping(n)
+	if c.Mon.off {
+		return
+	}
 	// start any node that just became a member and does not exist yet
 	for _, set := range [][]uint64{cs.GetVoters(), cs.GetLearners(), cs.GetVotersOutgoing(), cs.GetLearnersNext()} {
 		for _, id := range set {
